@@ -118,14 +118,14 @@ func usedRoundtrip(s *spec, p reflect.Value, byValue bool, used reflect.Value, v
 	})
 	if pn != nil {
 		w["panic"], w["where"] = pn.msg, pn.where
-		return &failure{"used-receiver-panic:" + pn.class, "Unmarshal of a valid encoding into a used receiver panicked: " + pn.msg + " at " + pn.where, w}
+		return &failure{"used-receiver-panic:" + pn.class, "Unmarshal of a valid encoding into a used receiver panicked: " + pn.msg + " at " + pn.where, w, ""}
 	}
 	if c := d.check(); c != "" {
 		w["canary"] = c
-		return &failure{"canary", "Unmarshal into a used receiver wrote outside the destination: " + c, w}
+		return &failure{"canary", "Unmarshal into a used receiver wrote outside the destination: " + c, w, ""}
 	}
 	if !bytes.Equal(data, keep) {
-		return &failure{"input-modified", "Unmarshal changed its input buffer", w}
+		return &failure{"input-modified", "Unmarshal changed its input buffer", w, ""}
 	}
 	// the expectation
 	exp := clone(used.Elem(), false)
@@ -152,7 +152,7 @@ func usedRoundtrip(s *spec, p reflect.Value, byValue bool, used reflect.Value, v
 	w["expected"], w["rule"] = show(exp.Interface()), rule
 	if (err != nil) != (libErr != nil) {
 		w["error"] = fmt.Sprint(err)
-		return &failure{"used-receiver-unmarshal-error", fmt.Sprintf("Unmarshal into a used receiver: error %v (expected %v)", err, libErr), w}
+		return &failure{"used-receiver-unmarshal-error", fmt.Sprintf("Unmarshal into a used receiver: error %v (expected %v)", err, libErr), w, ""}
 	}
 	got := d.val()
 	ok, path := deq(exp, got, opts)
@@ -167,5 +167,5 @@ func usedRoundtrip(s *spec, p reflect.Value, byValue bool, used reflect.Value, v
 	}
 	w["decoded"] = show(got.Interface())
 	w["first_difference_at"] = path
-	return &failure{"used-receiver-mismatch", fmt.Sprintf("decoding into a receiver that held another value: result differs from the expected value at %s", path), w}
+	return &failure{"used-receiver-mismatch", fmt.Sprintf("decoding into a receiver that held another value: result differs from the expected value at %s", path), w, ""}
 }
